@@ -48,13 +48,15 @@ Known finding KF-C09-l6-m3-p3 (genuine defect, .py, NOT repaired here: proposed 
 `*cos_i_half**4` (F_633 = 17325/8 sin^3 I cos I (2/11 - sin^2 I / 4)); at I = 2.6 the table gives 44948.0,
 the definition 860.35.  Its signature names the cell, so any other cell still raises a VIOLATION.
 
-Sensitivity (tools/mut.py, scratch copy, quick tier with --cases 2000), all CAUGHT:
+Sensitivity (tools/mut.py, scratch copy, quick tier with --cases 2000), all CAUGHT (the first three and the
+orderl4 one re-run with the final generator):
   orderl2.py   0.140625 -> 0.146025 (first occurrence, cell (0,0))           -> full l=2 (0,0)
   orderl2.py   cos_i_half**6 -> cos_i_half**5  (cell (1,0))                    -> full l=2 (1,0)
   universal_coeffs.py  1. / 2520. -> 1. / 2250.                               -> coeffs l=4 m=3
   orderl5.py   off table `(3, 1): 2756.25` -> 2765.25                         -> off l=5 (3,1)
   orderl7.py   (7, 0) `18261468225.0*cos_i_half**28` -> **27                   -> full l=7 (7,0)
   inclin_calc_orderl4.py  `4: orderl4.calc_inclination(obliquity)` -> orderl3  -> multi L=4
+  orderl4.py   first `sin_i**2` -> `sin_i**3`                                   -> full l=4
   proposed-fix-C09-1.diff applied: known finding no longer reproduced, rc 0.
 """
 import math
@@ -175,7 +177,6 @@ def fixed_cases(tier):
         for l in range(2, 8):
             if _allowed(tier, l, path):
                 out.append({'l': l, 'path': path, 'obl': list(GRID)})
-    # interleave so that the slow compiled paths are spread over the shards
     return out
 
 
